@@ -244,6 +244,9 @@ def encode(input, errors="strict", encoding=None):
     consumed = len(input)
     if encoding is None:
         encoding = detectencoding_unicode(input, True)[0]
+        if encoding is None:
+            # unterminated @charset rule: there is no declared encoding
+            encoding = "utf-8"
         if encoding.replace("_", "-").lower() == "utf-8-sig":
             input = _fixencoding(input, "utf-8", True)
     else:
@@ -408,6 +411,9 @@ class IncrementalEncoder(codecs.IncrementalEncoder):
             else:
                 # Use encoding from the @charset declaration
                 self.encoding = detectencoding_unicode(input, final)[0]
+                if self.encoding is None and final:
+                    # unterminated @charset rule: there is no declared encoding
+                    self.encoding = "utf-8"
             if self.encoding is not None:
                 if self.encoding == "css":
                     raise ValueError("css not allowed as encoding name")
